@@ -5,23 +5,26 @@
 
   "A `NetcodeClient` built by `NetcodeClient::new` from a token `ConnectToken::read` accepted never panics, whatever is done to
    it — `update` with any duration, `process_packet` with ARBITRARY bytes, `generate_payload_packet` with any payload,
-   `disconnect`, in any order, in any state — as long as the accumulated clock stays 2^31 s below `Duration::MAX` and fewer than
-   `2^64 - sequence` calls that send are made.  Every call returns one of its documented results."
+   `disconnect`, in any order, in any state — as long as the accumulated clock stays the token's timeout below `Duration::MAX`
+   and fewer than `2^64 - sequence` calls that send are made.  Every call returns one of its documented results."
 
   Proofs: Lemmas/NcClientTotal.lean.
     trace invariant `CTInv c`   = `NetcodeClient.CInv c` (time stamps not in the future, 32 address slots, `i32` timeout — what
                                   `C07.client_update_total` needs) ∧ `sequence ≤ u64::MAX`;
-    head room `HeadRoom c ops`  = `current_time + Σ d + TIMEOUT_MAX_NS ≤ DURATION_MAX  ∧  sequence + #(update | send calls) ≤ u64::MAX`
-                                  (decidable; `TIMEOUT_MAX_NS` = 2^31 s, the largest `i32` timeout);
+    head room `HeadRoom c ops`  = `current_time + Σ d + tmo c ≤ DURATION_MAX  ∧  sequence + #(update | send calls) ≤ u64::MAX`
+                                  (decidable; `tmo c` = the token's OWN `timeout_seconds` as a duration, 0 when not positive;
+                                  `head_room_of_max`: the room `TIMEOUT_MAX_NS` = 2^31 s of the largest `i32` timeout suffices
+                                  for every token);
     laws                          clock `current_time' = current_time + d`; counter `sequence ≤ sequence' ≤ sequence + 1`;
                                   the token never changes.
   No hypothesis on the AEAD, on the bytes received, on the client's state.
 
   Necessity of the head room (each excluded point panics):
     `clock_overflow_panics`     `current_time + d > Duration::MAX`                         → `update` panics (any client);
-    `deadline_overflow_panics`  clock below `Duration::MAX` but `last_received + timeout` above → `update` panics (so some room
-                                below `Duration::MAX` is needed; the theorem asks for the room of the largest timeout, 2^31 s,
-                                instead of the token's own — the only slack in the hypotheses);
+    `deadline_overflow_panics`  clock one second below `Duration::MAX`, a datagram just received, timeout 5 s:
+                                `last_received + timeout` overflows → `update(0)` panics, while with exactly the room of the
+                                token's timeout (5 s) it returns (`deadline_at_bound_returns`): the clock bound is tight for a
+                                client that has just received a datagram;
     `client_send_panics_iff`    `generate_payload_packet` panics EXACTLY when the payload is sendable, the client connected and
                                 `sequence = u64::MAX`;
     `counter_overflow_panics`   `update` at `sequence = u64::MAX` with a packet due panics.
@@ -54,7 +57,7 @@ theorem ctinv_cinv {c : NetcodeClient} (h : CTInv c) : NetcodeClient.CInv c := h
     that call: it returns normally with a documented result, keeps the invariant and the token, the clock advances by exactly the
     call's duration, the counter by at most one (and only for `update` / `generate_payload_packet`) -/
 theorem client_op_total (a : AEAD) {c : NetcodeClient} (op : Cl.COp) (hinv : CTInv c)
-    (ht : c.currentTime + dur op + NetcodeClient.TIMEOUT_MAX_NS ≤ DURATION_MAX) (hseq : c.sequence + sends op ≤ U64_MAX) :
+    (ht : c.currentTime + dur op + tmo c ≤ DURATION_MAX) (hseq : c.sequence + sends op ≤ U64_MAX) :
     ∃ o c', tstep a c op = some (o, c') ∧ Documented a c op o ∧ CTInv c' ∧ c'.currentTime = c.currentTime + dur op ∧
       c.sequence ≤ c'.sequence ∧ c'.sequence ≤ c.sequence + sends op ∧ c'.connectToken = c.connectToken :=
   tstep_total a op hinv ht hseq
@@ -104,17 +107,23 @@ theorem client_trace_total (a : AEAD) (ops : List Cl.COp) {c : NetcodeClient} (h
       log.map (·.2.1) = ops ∧ ∀ x ∈ log, CTInv x.1 ∧ Documented a x.1 x.2.1 x.2.2 :=
   trun_total a ops hinv hr
 
-/-- **… from `NetcodeClient::new`** on a token `ConnectToken::read` accepted: the head room is a condition on `now` and the trace
-    alone — `now + Σ d + 2^31 s ≤ Duration::MAX` and at most `u64::MAX` sending calls -/
+/-- the room of the largest `i32` timeout (2^31 s) is enough whatever the token -/
+theorem head_room_of_max {c : NetcodeClient} {ops : List Cl.COp} (hinv : CTInv c)
+    (ht : c.currentTime + totalDur ops + NetcodeClient.TIMEOUT_MAX_NS ≤ DURATION_MAX)
+    (hs : c.sequence + totalSends ops ≤ U64_MAX) : HeadRoom c ops :=
+  headRoom_of_max hinv ht hs
+
+/-- **… from `NetcodeClient::new`** on a token `ConnectToken::read` accepted: the head room is a condition on `now`, the token's
+    timeout and the trace alone — `now + Σ d + timeout ≤ Duration::MAX` and at most `u64::MAX` sending calls -/
 theorem client_trace_total_from_new (a : AEAD) {src : Bytes} {t : ConnectToken} (h : ConnectToken.read src = .ok t) (now : Nat)
-    (ops : List Cl.COp) (ht : now + totalDur ops + NetcodeClient.TIMEOUT_MAX_NS ≤ DURATION_MAX)
+    (ops : List Cl.COp) (ht : now + totalDur ops + fromSecs t.timeoutSeconds.toNat ≤ DURATION_MAX)
     (hs : totalSends ops ≤ U64_MAX) :
     ∃ c c' log, NetcodeClient.new now t = .ok c ∧ trun a c ops = some (c', log) ∧ CTInv c' ∧
       c'.currentTime = now + totalDur ops ∧ c'.sequence ≤ totalSends ops ∧ c'.connectToken = t ∧
       log.map (·.2.1) = ops ∧ ∀ x ∈ log, CTInv x.1 ∧ Documented a x.1 x.2.1 x.2.2 := by
   obtain ⟨c, hc, hinv, h1, h2, h3⟩ := client_new_ctinv h now
   obtain ⟨c', log, hrun, hi', t', -, s', k', hl, hd⟩ :=
-    client_trace_total a ops hinv ⟨by rw [h1]; exact ht, by rw [h2, Nat.zero_add]; exact hs⟩
+    client_trace_total a ops hinv ⟨by unfold tmo; rw [h1, h3]; exact ht, by rw [h2, Nat.zero_add]; exact hs⟩
   exact ⟨c, c', log, hc, hrun, hi', by rw [t', h1], by rw [h2, Nat.zero_add] at s'; exact s', by rw [k', h3], hl, hd⟩
 
 /-- the same for the runner `NcClientTrace.prun` of round 20: every trace inside the head room runs to its end, so the "the run
@@ -128,13 +137,14 @@ theorem client_prun_total (a : AEAD) (ops : List Cl.COp) {c : NetcodeClient} (hi
     the run exists, the payloads it surfaced stem from pairwise distinct sequence numbers, each is the plaintext its datagram
     opens to under the token's server-to-client key, and the stored window is the `Recv.run` window of the datagrams handed in -/
 theorem client_new_payloads_at_most_once_total (a : AEAD) {src : Bytes} {t : ConnectToken} (h : ConnectToken.read src = .ok t)
-    (now : Nat) (ops : List Cl.COp) (ht : now + totalDur ops + NetcodeClient.TIMEOUT_MAX_NS ≤ DURATION_MAX)
+    (now : Nat) (ops : List Cl.COp) (ht : now + totalDur ops + fromSecs t.timeoutSeconds.toNat ≤ DURATION_MAX)
     (hs : totalSends ops ≤ U64_MAX) :
     ∃ c c' ps, NetcodeClient.new now t = .ok c ∧ prun a c ops = some (c', ps) ∧ (C04C.surfacedSeqs ps).Nodup ∧
       (∀ x ∈ ps, x.1 ∈ recvBufs ops ∧ SealedOpen a x.1 t.protocolId t.serverToClientKey .payload x.2) ∧
       c'.replayProtection = (Recv.run a t.protocolId t.serverToClientKey (recvBufs ops)).window := by
   obtain ⟨c, hc, hinv, h1, h2, h3⟩ := client_new_ctinv h now
-  obtain ⟨c', ps, hp, -⟩ := client_prun_total a ops hinv ⟨by rw [h1]; exact ht, by rw [h2, Nat.zero_add]; exact hs⟩
+  obtain ⟨c', ps, hp, -⟩ :=
+    client_prun_total a ops hinv ⟨by unfold tmo; rw [h1, h3]; exact ht, by rw [h2, Nat.zero_add]; exact hs⟩
   obtain ⟨q1, q2, -, q4, -⟩ := C04C.client_new_payloads_at_most_once a hc hp
   exact ⟨c, c', ps, hc, hp, q1, q2, q4⟩
 
@@ -167,6 +177,8 @@ def exOps : List Cl.COp :=
     .disconnect]
 
 theorem exOps_headRoom : HeadRoom cA0 exOps := by decide +kernel
+/-- `head_room_of_max` on it -/
+example : HeadRoom cA0 exOps := head_room_of_max cA0_ctinv (by decide +kernel) (by decide +kernel)
 
 /-- what an example shows of a logged result -/
 def shape : Out → String × Nat
@@ -234,8 +246,10 @@ def cLate (room : Nat) : NetcodeClient :=
 /-- the clock one second below `Duration::MAX`, the last datagram just received, a 5 s timeout: `update(0)` stays below
     `Duration::MAX` — and panics in `last_packet_received_time + timeout` -/
 theorem deadline_overflow_panics : (NetcodeClient.update NS.Ex.a (cLate (10 ^ 9)) 0).isPanic = true := by decide +kernel
-/-- … while with the room of the token's timeout it returns -/
-example : (NetcodeClient.update NS.Ex.a (cLate (5 * 10 ^ 9)) 0).isPanic = false := by decide +kernel
+/-- … while with exactly the room of the token's timeout (`HeadRoom` holds with equality) it returns -/
+theorem deadline_at_bound_returns : (NetcodeClient.update NS.Ex.a (cLate (5 * 10 ^ 9)) 0).isPanic = false := by decide +kernel
+example : (cLate (5 * 10 ^ 9)).currentTime + 0 + tmo (cLate (5 * 10 ^ 9)) = DURATION_MAX := by decide +kernel
+example : ¬ HeadRoom (cLate (10 ^ 9)) [.update 0] := by decide +kernel
 
 /-- the counter at `u64::MAX`: `generate_payload_packet` panics (`client_send_panics_iff`), … -/
 example : (NetcodeClient.generatePayloadPacket NS.Ex.a { cConn with sequence := U64_MAX } [1]).isPanic = true :=
